@@ -89,6 +89,8 @@ def _data_column(cls: str, n: int, c: int, dtag: str):
         return [f"{dtag}{r}.{c}" for r in range(n)]
     if cls == "p":
         return [f"  {dtag}{r}.{c} " for r in range(n)]
+    if cls == "x":  # conversion-triggering printable ASCII (only meaningful with text_convert off)
+        return [f"{dtag}{r}.{c} a^b_c >= d <= e ~!@#$%&*()+=[]|;:'\",.<>/?" for r in range(n)]
     if cls == "i":
         return [r * 1000 + c for r in range(n)]
     if cls == "f":
@@ -100,7 +102,7 @@ def _data_column(cls: str, n: int, c: int, dtag: str):
     raise ValueError(cls)
 
 
-_POLARS_DT = {"s": "Utf8", "p": "Utf8", "i": "Int64", "f": "Float64", "z": "Utf8", "m": "Utf8"}
+_POLARS_DT = {"s": "Utf8", "p": "Utf8", "x": "Utf8", "i": "Int64", "f": "Float64", "z": "Utf8", "m": "Utf8"}
 
 
 def table_frame(spec: dict, dtag: str = "D"):
